@@ -409,122 +409,109 @@ theorem psound_pushdown_join_condition_right_partial (t : JoinType)
   rcases ht with rfl | rfl | rfl | rfl <;>
     simp [RelEq, Rel.out, join, joinRows, filter, hm]
 
--- join -> hashjoin: the hash-join executor matches keys by `DataValue` equality -------------
+-- join -> hashjoin: the hash-join executor matches non-NULL keys by `DataValue` equality ----------
 
-/-- Witness: both key columns hold NULL. SQL `=` is not TRUE on NULLs, hash keys are equal. -/
-def wLn : Rel := { cols := [fun ρ => ρ 0], owned := fun x => x == 0, rows := [fun _ => .null] }
-def wRn : Rel := { cols := [fun ρ => ρ 1], owned := fun x => x == 1, rows := [fun _ => .null] }
-def wK0 : VExpr := fun ρ => ρ 0
-def wK1 : VExpr := fun ρ => ρ 1
+/-- SQL `=` is TRUE exactly when the executor's key equality holds. -/
+theorem sqlEq_keyEq (a b : PV) : (sqlEq a b == some true) = keyEq a b := by
+  cases a <;> cases b <;> simp [sqlEq, keyEq]
 
-theorem wLn_wRn_disjoint : ∀ x, wLn.owned x = true → wRn.owned x = false := by
-  intro x hx
-  simp only [wLn, wRn, beq_iff_eq] at hx ⊢
-  subst hx; rfl
+theorem holds_bEq (l r : VExpr) (ρ : Env) : holds (bEq l r) ρ = keyEq (l ρ) (r ρ) := by
+  simp only [holds, bEq]; exact sqlEq_keyEq _ _
 
-theorem wK0_indep : Indep wK0 wRn.owned := by
-  intro ρ ρ' h; exact h 0 (by simp [wRn])
-theorem wK1_indep : Indep wK1 wLn.owned := by
-  intro ρ ρ' h; exact h 1 (by simp [wLn])
+theorem keysEq_one (l r : VExpr) (ρ : Env) : (keysEq [l] [r] ρ == some true) = keyEq (l ρ) (r ρ) := by
+  simp [keysEq, bTrue]
 
-theorem wReads {α} (e : Env → α) (h0 : ∀ ρ ρ' : Env, ρ 0 = ρ' 0 → ρ 1 = ρ' 1 → e ρ = e ρ') :
-    ReadsWithin e (fun x => wLn.owned x || wRn.owned x) := by
-  intro ρ ρ' h
-  exact h0 ρ ρ' (h 0 (by simp [wLn])) (h 1 (by simp [wRn]))
+theorem keysEq_two (l1 l2 r1 r2 : VExpr) (ρ : Env) :
+    (keysEq [l1, l2] [r1, r2] ρ == some true) = (keyEq (l1 ρ) (r1 ρ) && keyEq (l2 ρ) (r2 ρ)) := by
+  simp [keysEq, bTrue]
 
-theorem wK0_reads : ReadsWithin wK0 (fun x => wLn.owned x || wRn.owned x) :=
-  wReads _ (by intro ρ ρ' h0 _; exact h0)
-theorem wK1_reads : ReadsWithin wK1 (fun x => wLn.owned x || wRn.owned x) :=
-  wReads _ (by intro ρ ρ' _ h1; exact h1)
+theorem keysEq_three (l1 l2 l3 r1 r2 r3 : VExpr) (ρ : Env) :
+    (keysEq [l1, l2, l3] [r1, r2, r3] ρ == some true)
+      = (keyEq (l1 ρ) (r1 ρ) && (keyEq (l2 ρ) (r2 ρ) && keyEq (l3 ρ) (r3 ρ))) := by
+  simp [keysEq, bTrue]
 
-macro "hj_eval" : tactic => `(tactic|
-  simp [RelEq, Rel.out, join, hashjoin, joinRows, matchesL, filter, holds, wLn, wRn, wK0, wK1, bAnd, bEq, bTrue,
-        merge, sqlEq, keysEq, keyEq, X.and3])
+/-- Two joins whose conditions agree as truth values denote the same relation. -/
+theorem join_of_holds_eq (t : JoinType) (on on' : BExpr) (L R : Rel)
+    (h : ∀ ρ, holds on ρ = holds on' ρ) : join t on L R = join t on' L R :=
+  join_congr t on on' L R (fun _ _ _ _ => h _)
 
-theorem punsound_hash_join_on_one_eq : ¬ pstmt_hash_join_on_one_eq := by
-  intro h
-  have := h .inner wK0 wK1 wLn wRn wLn_wRn_disjoint
-    (wReads _ (by intro ρ ρ' h0 h1; simp [bEq, wK0, wK1, h0, h1])) wK0_indep wK1_indep
-  revert this; hj_eval
-
-theorem punsound_hash_join_on_two_eq : ¬ pstmt_hash_join_on_two_eq := by
-  intro h
-  have := h .inner wK0 wK1 wK0 wK1 wLn wRn wLn_wRn_disjoint
-    (wReads _ (by intro ρ ρ' h0 h1; simp [bAnd, bEq, wK0, wK1, h0, h1])) wK0_indep wK0_indep wK1_indep wK1_indep
-  revert this; hj_eval
-
-theorem punsound_hash_join_on_three_eq : ¬ pstmt_hash_join_on_three_eq := by
-  intro h
-  have := h .inner wK0 wK1 wK0 wK1 wK0 wK1 wLn wRn wLn_wRn_disjoint
-    (wReads _ (by intro ρ ρ' h0 h1; simp [bAnd, bEq, wK0, wK1, h0, h1]))
-    wK0_indep wK0_indep wK0_indep wK1_indep wK1_indep wK1_indep
-  revert this; hj_eval
-
-theorem punsound_hash_join_on_one_eq_1 : ¬ pstmt_hash_join_on_one_eq_1 := by
-  intro h
-  have := h wK0 wK1 bTrue wLn wRn wLn_wRn_disjoint
-    (wReads _ (by intro ρ ρ' h0 h1; simp [bAnd, bEq, bTrue, wK0, wK1, h0, h1])) wK0_indep wK1_indep
-  revert this; hj_eval
-
-theorem punsound_hash_join_on_one_eq_2 : ¬ pstmt_hash_join_on_one_eq_2 := by
-  intro h
-  have := h wK0 wK1 bTrue wLn wRn wLn_wRn_disjoint
-    (wReads _ (by intro ρ ρ' h0 h1; simp [bAnd, bEq, bTrue, wK0, wK1, h0, h1])) wK0_indep wK1_indep
-  revert this; hj_eval
-
-theorem punsound_hash_join_on_one_eq_3 : ¬ pstmt_hash_join_on_one_eq_3 := by
-  intro h
-  have := h wK0 wK1 bTrue wLn wRn wLn_wRn_disjoint
-    (wReads _ (by intro ρ ρ' h0 h1; simp [bAnd, bEq, bTrue, wK0, wK1, h0, h1])) wK0_indep wK1_indep
-  revert this; hj_eval
-
-theorem punsound_hash_join_on_one_eq_rev : ¬ pstmt_hash_join_on_one_eq_rev := by
-  intro h
-  have := h .inner bTrue wK0 wK1 wLn wRn wLn_wRn_disjoint (wReads _ (by intros; rfl))
-    (by intro e he; simp at he; subst he; exact wK0_reads) (by intro e he; simp at he; subst he; exact wK1_reads)
-  revert this; hj_eval
-
-theorem punsound_hash_join_on_two_eq_rev : ¬ pstmt_hash_join_on_two_eq_rev := by
-  intro h
-  have := h .inner bTrue wK0 wK0 wK1 wK1 wLn wRn wLn_wRn_disjoint (wReads _ (by intros; rfl))
-    (by intro e he; simp at he; rcases he with rfl | rfl <;> exact wK0_reads)
-    (by intro e he; simp at he; rcases he with rfl | rfl <;> exact wK1_reads)
-  revert this; hj_eval
-
-theorem punsound_hash_join_on_three_eq_rev : ¬ pstmt_hash_join_on_three_eq_rev := by
-  intro h
-  have := h .inner bTrue wK0 wK0 wK0 wK1 wK1 wK1 wLn wRn wLn_wRn_disjoint (wReads _ (by intros; rfl))
-    (by intro e he; simp at he; rcases he with rfl | rfl | rfl <;> exact wK0_reads)
-    (by intro e he; simp at he; rcases he with rfl | rfl | rfl <;> exact wK1_reads)
-  revert this; hj_eval
-
-theorem sqlEq_keyEq (a b : PV) (ha : a ≠ .null) : (sqlEq a b == some true) = keyEq a b := by
-  cases a <;> cases b <;> simp_all [sqlEq, keyEq]
-
-/-- With no NULL among the left keys the one-key rule is sound for every join type. -/
-theorem psound_hash_join_on_one_eq_partial (t : JoinType) (l1 r1 : VExpr) (L R : Rel)
-    (hl : Indep l1 R.owned) (hnn : ∀ l ∈ L.rows, l1 l ≠ .null) :
-    RelEq (join t (bEq l1 r1) L R) (hashjoin t bTrue [l1] [r1] L R) := by
+theorem psound_hash_join_on_one_eq : pstmt_hash_join_on_one_eq := by
+  intro t l1 r1 L R _ _ _ _
   unfold hashjoin RelEq
-  rw [join_congr t (bEq l1 r1) _ L R]
-  intro l hl' r _
-  have h1 : l1 (merge R.owned l r) = l1 l := merge_indep l1 R.owned hl l r
-  have := sqlEq_keyEq (l1 l) (r1 (merge R.owned l r)) (hnn l hl')
-  simp [holds, bEq, keysEq, bTrue, h1, this]
+  rw [join_of_holds_eq t (bEq l1 r1) _ L R]
+  intro ρ
+  rw [holds_bEq]
+  simp [holds, keysEq_one, bTrue]
 
-/-- … and so is its reverse, with an arbitrary residual condition. -/
-theorem psound_hash_join_on_one_eq_rev_partial (t : JoinType) (c : BExpr) (l1 r1 : VExpr) (L R : Rel)
-    (hl : Indep l1 R.owned) (hnn : ∀ l ∈ L.rows, l1 l ≠ .null) :
-    RelEq (hashjoin t c [l1] [r1] L R) (join t (bAnd c (bEq l1 r1)) L R) := by
+theorem psound_hash_join_on_two_eq : pstmt_hash_join_on_two_eq := by
+  intro t l1 r1 l2 r2 L R _ _ _ _ _ _
   unfold hashjoin RelEq
-  rw [join_congr t _ (bAnd c (bEq l1 r1)) L R]
-  intro l hl' r _
-  have h1 : l1 (merge R.owned l r) = l1 l := merge_indep l1 R.owned hl l r
-  have := sqlEq_keyEq (l1 l) (r1 (merge R.owned l r)) (hnn l hl')
-  have hb := holds_bAnd c (bEq l1 r1) (merge R.owned l r)
-  simp only [holds, bEq, h1] at hb
-  simp only [holds, keysEq, bTrue, h1]
-  rw [hb, this]
-  simp [Bool.and_comm]
+  rw [join_of_holds_eq t (bAnd (bEq l1 r1) (bEq l2 r2)) _ L R]
+  intro ρ
+  rw [holds_bAnd, holds_bEq, holds_bEq]
+  simp [holds, keysEq_two, bTrue]
+
+theorem psound_hash_join_on_three_eq : pstmt_hash_join_on_three_eq := by
+  intro t l1 r1 l2 r2 l3 r3 L R _ _ _ _ _ _ _ _
+  unfold hashjoin RelEq
+  rw [join_of_holds_eq t (bAnd (bEq l1 r1) (bAnd (bEq l2 r2) (bEq l3 r3))) _ L R]
+  intro ρ
+  rw [holds_bAnd, holds_bAnd, holds_bEq, holds_bEq, holds_bEq]
+  simp [holds, keysEq_three, bTrue]
+
+/-- `(join inner (and (= l r) cond) L R) => (filter cond (hashjoin inner true [l] [r] L R))` -/
+theorem psound_hash_join_on_one_eq_1 : pstmt_hash_join_on_one_eq_1 := by
+  intro l1 r1 c L R _ _ _ _
+  unfold hashjoin
+  simp only [RelEq, Rel.out, filter, join, joinRows, matchesL]
+  congr 1
+  rw [List.filter_flatMap]
+  apply flatMap_congr'
+  intro l _
+  rw [List.filter_filter]
+  apply List.filter_congr
+  intro ρ _
+  rw [holds_bAnd, holds_bEq]
+  simp [holds, keysEq_one, bTrue, Bool.and_comm]
+
+theorem psound_hash_join_on_one_eq_2 : pstmt_hash_join_on_one_eq_2 := by
+  intro l1 r1 c L R _ _ _ _
+  unfold hashjoin RelEq
+  rw [join_of_holds_eq .semi (bAnd (bEq l1 r1) c) _ L R]
+  intro ρ
+  rw [holds_bAnd, holds_bEq]
+  simp [holds, keysEq_one]
+
+theorem psound_hash_join_on_one_eq_3 : pstmt_hash_join_on_one_eq_3 := by
+  intro l1 r1 c L R _ _ _ _
+  unfold hashjoin RelEq
+  rw [join_of_holds_eq .anti (bAnd (bEq l1 r1) c) _ L R]
+  intro ρ
+  rw [holds_bAnd, holds_bEq]
+  simp [holds, keysEq_one]
+
+theorem psound_hash_join_on_one_eq_rev : pstmt_hash_join_on_one_eq_rev := by
+  intro t c l1 r1 L R _ _ _ _
+  unfold hashjoin RelEq
+  rw [join_of_holds_eq t _ (bAnd c (bEq l1 r1)) L R]
+  intro ρ
+  rw [holds_bAnd, holds_bEq]
+  simp [holds, keysEq_one, Bool.and_comm]
+
+theorem psound_hash_join_on_two_eq_rev : pstmt_hash_join_on_two_eq_rev := by
+  intro t c l1 l2 r1 r2 L R _ _ _ _
+  unfold hashjoin RelEq
+  rw [join_of_holds_eq t _ (bAnd c (bAnd (bEq l1 r1) (bEq l2 r2))) L R]
+  intro ρ
+  rw [holds_bAnd, holds_bAnd, holds_bEq, holds_bEq]
+  simp [holds, keysEq_two, Bool.and_comm]
+
+theorem psound_hash_join_on_three_eq_rev : pstmt_hash_join_on_three_eq_rev := by
+  intro t c l1 l2 l3 r1 r2 r3 L R _ _ _ _
+  unfold hashjoin RelEq
+  rw [join_of_holds_eq t _ (bAnd c (bAnd (bEq l1 r1) (bAnd (bEq l2 r2) (bEq l3 r3)))) L R]
+  intro ρ
+  rw [holds_bAnd, holds_bAnd, holds_bAnd, holds_bEq, holds_bEq, holds_bEq]
+  simp [holds, keysEq_three, Bool.and_comm]
 
 end RlModel.C01
